@@ -60,4 +60,8 @@ def run(ctx, rep):
     rep.run(RID.rule_offsets, ctx, rep, "H14")
     # H15: a scalar result reaches MATLAB as the number the C++ entity returned: no lossy conversion before the store (= C18 K3)
     rep.run(RH.rule_scalar_write, ctx, rep, "H15")
+    # H16: the pointer constructor keeps the base handle and registers under the collector routine's id (= C05 I9)
+    rep.run(RID.rule_pointer_constructor_by_evaluation, ctx, rep, "H16")
+    # H17: the supplied argument values reach the C++ entity: every converter rejects exactly what it cannot convert, strings are read whole (= C18 K10)
+    rep.run(RH2.rule_guard_truth_tables, ctx, rep, "H17")
     rep.run(RF.rule_locals_defined, ctx, rep, "U1", packages=("gtwrap/matlab_wrapper",), min_functions=3)
